@@ -236,6 +236,19 @@ _PATCH_NOTES = {
     "UD4": "api: is_client_allowed() predicate method", "UE1": "api: one shared MAX_BODY_SIZE constant", "UE2": "api: SharedServerState alias in handlers", "UE3": "lib: http::header::CACHE_CONTROL constant for the header name",
     "UE4": "lib: compile-time banner string for GET /", "UF1": "bin: ServerArgs::server_config()", "UF2": "bin: remove_one / remove_many instead of get_* + clone", "UF3": "bin: ServerArgs destructured in main",
     "UF4": "bin: generic required::<T>() accessor",
+    "WA1": "core: pedantic-lint fixes (Self, const fn, derive Eq, assert!)", "WA2": "sqlite: pedantic-lint fixes (Self, &self for get_version_impl)", "WA3": "api: pub(crate) -> pub in private modules",
+    "WA4": "bin: inline format args", "WB1": "api: uuid_header(req, name, bad: fn() -> Error) helper returning Result<Option<Uuid>>", "WB2": "core: HIGH_EXTRA_DIVISOR const + generic for_age",
+    "WB3": "add_snapshot: BodyLimit struct with async read()", "WB4": "sqlite: VersionLookup enum selecting the query text", "WC1": "api: error constructor functions",
+    "WC2": "api: ApiError newtype with From impls, handlers return Result<_, ApiError>", "WC3": "sqlite: private SqlContext extension trait", "WC4": "api: message literals as private consts",
+    "XA1": "api: ResultExt::or_actix() extension trait", "XA2": "api: IntoActixError trait replacing the two mapping functions", "XA3": "add_version: NewClientError enum + ensure_client() using plain `?`",
+    "XA4": "api: let-else early returns in client_id_header, match in get_snapshot", "XB1": "core: find_snapshot_version(&mut dyn StorageTxn) -> SnapshotSearch", "XB2": "core: search loop as while !found with an up-counter",
+    "XB3": "core: for_thresholds<T> + snapshot_urgency(Option<&Snapshot>)", "XB4": "inmemory: key() helper + let-else flattening", "XC1": "api: check_content_type + async read_body helpers",
+    "XC2": "add_version: attempt_add_version() -> Attempt enum", "XC3": "api: local builder variables + header-insertion functions", "XC4": "add_snapshot: BodyBuffer struct with async fill_from / push / into_inner",
+    "XD1": "sqlite: schema statements as a const array, VersionKey::select_sql() const fn", "XD2": "sqlite: row mappers as named functions", "XD3": "sqlite: Txn::modify<P: Params>() helper",
+    "XD4": "sqlite: initialize()/set_journal_mode()/create_schema(), Txn::begin()", "XE1": "api: constants moved to api/headers.rs", "XE2": "core: SnapshotUrgency moved to snapshot_urgency.rs",
+    "XE3": "sqlite: schema set-up moved to schema.rs", "XE4": "lib: index + no-store headers moved to root.rs", "XF1": "core: SnapshotAge trait (one_and_a_half) + generic for_age + map_or",
+    "XF2": "api: BodyLimit newtype const + read() with fn-pointer overflow constructor", "XF3": "sqlite: From<StoredUuid> for Uuid, named mappers, zip/then_some", "XF4": "inmemory: derive Default, let-else, matches!, and_then",
+    "WD1": "core: junior tidy-up of server.rs", "WD2": "sqlite: junior tidy-up", "WD3": "api: junior tidy-up of handlers", "WD4": "bin: junior tidy-up",
 }
 for _p in sorted(_glob.glob(_os.path.join(_PD, "*.diff"))):
     _n = _os.path.basename(_p)[:-5]
